@@ -2,6 +2,7 @@
 from harness.props import _heap as H
 
 PID = "C16"
+TRANSLATE = ["EqFingerprint.v"]     # translator tie: coq/gen_proofs/EqFingerprint.v is re-proved against definitions regenerated from /repo
 PRELUDE = H.PRELUDE
 FAILING = H.FAILING
 SHARD = 60
